@@ -15,7 +15,25 @@ DETSCHED = os.path.join(VERIF, "harness", "detsched", "detsched.cpp")
 ANCHOR_FILES = ["include/iora/network/transport_impl.hpp", "include/iora/network/detail/tcp_engine.hpp", "include/iora/network/detail/engine_base.hpp"]
 OBLIGATIONS = [
     {"id": "C05_skel", "theorem": "Iora.C05.skeleton_conforms", "kind": "proved",
-     "statement": "fence written and notified under syncMutex; guards are paired inc/dec + notify; every park site checks the fence and constructs its guard(s) before waiting; performTeardown order (decide over the regenerated skeleton)"},
+     "statement": "fence written and notified under syncMutex; guards are paired inc/dec + notify; every park site checks the fence and constructs its guard(s) before waiting; performTeardown order; enqueue tests _cmdsClosed under _cmdMutex; shutdownDrain closes the queue and takes the residual under one lock and fails its promises; process fulfils in both arms; addListener returns before waiting when refused; stop joins (decide over the regenerated skeletons)"},
+    {"id": "C05_T1_path", "theorem": "Iora.C05.T1_finite_path", "kind": "partial",
+     "statement": "every reachable state: a thread inside a sync call (parked, in the close window, anywhere in the flush loop) returns within 3 of its own steps - 'bounded time' as a step bound, not wall-clock"},
+    {"id": "C05_T1_wake", "theorem": "Iora.C05.T1_no_lost_wakeup", "kind": "proved",
+     "statement": "no schedule leaves a connectSync asleep once the fence is set or its completion delivered, a receiveSync asleep once its session closed or after a wait-out(true) entry, or the destructor asleep with all counters 0"},
+    {"id": "C05_T1_gate", "theorem": "Iora.C05.T1_gate_opens", "kind": "proved",
+     "statement": "when no thread is inside a call the gate is open: teardown completes"},
+    {"id": "C05_T2", "theorem": "Iora.C05.T2_counters_gate_destruction", "kind": "partial",
+     "statement": "teardownWaitOut returns only with all counters 0 and nobody inside; Impl is destroyed only then; touching Impl after destruction is unreachable in the MODEL (use-after-free of the real object graph is explored by ASan, not proved)"},
+    {"id": "C05_T3", "theorem": "Iora.C05.T3_fence_rejects", "kind": "proved",
+     "statement": "a call whose entry section runs after the fence returns ShuttingDown/false in that section without parking or counting"},
+    {"id": "C05_T4_close", "theorem": "Iora.C05.T4_enqueue_after_close", "kind": "proved",
+     "statement": "enqueue after _cmdsClosed queues nothing"},
+    {"id": "C05_T4_promise", "theorem": "Iora.C05.T4_promise_exactly_once", "kind": "proved",
+     "statement": "every schedule: a listener promise is fulfilled at most once, a rejected one never, and every accepted one exactly once when the I/O thread has terminated"},
+    {"id": "C05_T5_conf", "theorem": "Iora.C05.T5_callbacks_confined", "kind": "proved",
+     "statement": "close callbacks are emitted only by I/O-thread steps while that thread exists"},
+    {"id": "C05_T5_stop", "theorem": "Iora.C05.T5_no_callback_after_stop", "kind": "proved",
+     "statement": "once stop() returned to a non-callback caller the I/O thread has terminated and no later step emits a close callback"},
 ]
 
 
@@ -249,7 +267,7 @@ def run(ctx: Ctx):
     if ok_build:
         ctx.audit(MODULES, OBLIGATIONS)
         if not quick:
-            ctx.leanchecker(MODULES + ["IoraModel.Lemmas.Teardown", "IoraModel.Model.Teardown", "IoraModel.Model.EngineQueue", "IoraModel.Model.TsyncFacts", "IoraModel.Gen.TsyncSkel"])
+            ctx.leanchecker(MODULES + ["IoraModel.Lemmas.Teardown", "IoraModel.Lemmas.EngineQueue", "IoraModel.Model.Teardown", "IoraModel.Model.EngineQueue", "IoraModel.Model.TsyncFacts", "IoraModel.Gen.TsyncSkel"])
     else:
         ctx.cov["obligations"] = len(OBLIGATIONS)
     hb = ctx.build_harness("harness/c05_teardown.cpp", sanitize=True, flags=[DETSCHED])
